@@ -35,6 +35,8 @@ def f_and(a, b):
         return b
     if b == TRUE:
         return a
+    if a == b:
+        return a
     return ("and", a, b)
 
 
@@ -45,6 +47,8 @@ def f_or(a, b):
         return b
     if b == FALSE:
         return a
+    if a == f_not(b) or a == b:
+        return TRUE if a != b else a
     return ("or", a, b)
 
 
